@@ -257,7 +257,14 @@ fn g_mixed(ch: &mut Chooser, acc: &mut Acc) -> B {
 /// afterwards is memory hashed into a storage key
 fn g_call_clobber(ch: &mut Chooser, acc: &mut Acc) -> B {
     let mut b = B::new();
-    let c = W::from_u64(*ch.pick(&[1u64, 3, 7, 11, 42]));
+    let mut c = W::from_u64(*ch.pick(&[1u64, 3, 7, 11, 42]));
+    // a return area that ends inside the word holding the constant, whose non-zero bytes are exactly the
+    // ones the returned data overwrites
+    let partial = ch.chance(1, 3);
+    if partial {
+        c = c.shl(W::from_u64(224));
+        acc.label("call-clobber:partial-word");
+    }
     // keccak(caller . c), discarded
     b.emit(asm::CALLER);
     b.push(W::ZERO);
@@ -271,9 +278,13 @@ fn g_call_clobber(ch: &mut Chooser, acc: &mut Acc) -> B {
     b.emit(asm::POP);
     acc.label("lookalike:to-memory/log/return/call");
     // a call whose return area covers the scratch words
-    let ret_size = *ch.pick(&[0x40u64, 0x40, 0x60, 0x80, 0x20]);
+    let (ret_off, ret_size) = if partial {
+        *ch.pick(&[(0x20u64, 4u64), (0, 0x24), (0x20, 0x1f), (0, 0x3f), (0x20, 0x21)])
+    } else {
+        (0, *ch.pick(&[0x40u64, 0x40, 0x60, 0x80, 0x20]))
+    };
     b.push(W::from_u64(ret_size));
-    b.push(W::ZERO);
+    b.push(W::from_u64(ret_off));
     b.push(W::ZERO);
     b.push(W::ZERO);
     if ch.chance(1, 2) {
